@@ -47,6 +47,12 @@ def main():
         return ok
 
     sh("git -C /repo worktree add -q %s HEAD" % wt)
+    # instrumentation files not committed yet (builders still at work) are part of the tree the checks build against
+    rc, out = sh("git -C /repo ls-files --others --exclude-standard")
+    for f in out.split():
+        if os.path.basename(f).startswith("verif_") and f.endswith(".go"):
+            os.makedirs(os.path.dirname(os.path.join(wt, f)), exist_ok=True)
+            shutil.copy(os.path.join("/repo", f), os.path.join(wt, f))
     try:
         demo_src = os.path.join(a.src, "demo_test.go")
         demo_dst = os.path.join(wt, a.demo_dir, a.demo_name)
